@@ -594,9 +594,9 @@ class PendingAssign(PendingNode[Assign | AnnAssign]):
         return self.nsp.get_assign(target.id, value)
 
     def assign_subscript(self, target: Subscript, value: expr):
-        _slice = target.slice
-        if isinstance(_slice, Slice):
-            _slice = utils.convert_slice(_slice)
+        _slice = utils.convert_subscript_index(
+            target.slice, lambda node: expr_transf(self.nsp, node)
+        )
 
         return Call(
             func=Attribute(
